@@ -401,6 +401,13 @@ pub fn spice_names(rng: &mut Rng, t: &mut Rose, pct: usize) -> usize {
 /// two DIFFERENT sets of such names often concatenate to the same string (`a`+`bc` = `ab`+`c`), so a set of taxa must never be
 /// identified with the concatenation (or any separator-free rendering) of its names
 pub fn concat_names(rng: &mut Rng, n: usize) -> Vec<String> {
+    // half of the time the unary family x, xx, xxx, ...: any two sets of names of the same total length concatenate alike
+    if rng.chance(1, 2) {
+        let c = *rng.pick(&["a", "T", "0", "é"]);
+        let mut v: Vec<String> = (1..=n).map(|k| c.repeat(k)).collect();
+        rng.shuffle(&mut v);
+        return v;
+    }
     let mut all: Vec<String> = vec![];
     for a in ["a", "b", "c"] {
         all.push(a.to_string());
